@@ -354,36 +354,45 @@ def subscription_counting(rep, mod, rule):
 
 
 def extends_table(rep, mod, rule):
+    """the truth table of extends over the three conditions it may look at:
+    membership in the implied set, strictness, inequality with the receiver.
+    Every path's returned value, under every assignment of the three that
+    the path's own facts admit, is  member and (not strict or differs)."""
+    import itertools
+    from .sem import _eval3, consistent
     f = find_def(mod, 'Specification.extends')
     i, s = f.args.args[1].arg, f.args.args[2].arg
+    (M, pm), (S, ps_), (N, pn) = [
+        canon(ast.parse(t, mode='eval').body, True)
+        for t in ('%s in self._implied' % i, s, 'self != %s' % i)]
     ss = normal(summaries(f))
     probs = []
+    rows = 0
     for ps in ss:
-        member = ps.fact('%s in self._implied' % i)
-        strict = ps.fact(s)
-        ret = nt(ps.ret)
-        full = ret in ('%s in self._implied and (not %s or self != %s)' % (i, s, i),)
-        if full:
+        if ps.ret is None:
+            probs.append('a path returns nothing')
             continue
-        if member is False:
-            if ret not in ('False', '%s in self._implied' % i):
-                probs.append('non-member returns `%s`' % ret)
-        elif member is True:
-            if strict is False:
-                if ret not in ('True', 'not %s' % s):
-                    probs.append('non-strict member returns `%s`' % ret)
-            elif strict is True:
-                if ret != 'self != %s' % i:
-                    probs.append('strict member returns `%s`' % ret)
+        for bits in itertools.product((True, False), repeat=3):
+            member, strict, differs = bits
+            assign = {M: member == pm, S: strict == ps_, N: differs == pn}
+            if not consistent(ps, assign):
+                continue
+            rows += 1
+            want = member and (not strict or differs)
+            if isinstance(ps.ret, ast.Constant) and isinstance(ps.ret.value, bool):
+                got = ps.ret.value
             else:
-                if ret not in ('not %s or self != %s' % (s, i),):
-                    probs.append('member returns `%s`' % ret)
-        else:
-            probs.append('membership in the implied set not tested on a path (`%s`)' % ret[:50])
+                got = _eval3(ps.ret, assign)
+            if got is not want:
+                probs.append('member=%s strict=%s differs=%s returns `%s` (%s)'
+                             % (member, strict, differs, nt(ps.ret)[:50], got))
+    if rows < 8:
+        probs.append('only %d of the 8 cases are covered' % rows)
     dflt = [norm_src(d) for d in f.args.defaults]
     rep.check(rule, 'Specification.extends', not probs and dflt == ['True'],
               'interface in self._implied and (not strict or self != interface); '
-              'strict defaults to True' if not probs else {'problems': sorted(set(probs))},
+              'strict defaults to True' if not probs else
+              {'problems': sorted(set(probs))[:4]},
               construct='table', node=f)
 
 
